@@ -161,18 +161,18 @@ PROPS = {
     },
     'C02': {
         'families': [('kt', ['KT']), ('fr_enc', ['FR-F5']), ('fr', ['FR-F2']), ('dg', ['DG-D6'])],
-        'floors': {'KT-K1': 33, 'KT-K2': 30, 'KT-K3': 30, 'KT-K4': 20, 'KT-K7': 6, 'FR-F5': 10},
+        'floors': {'KT-K1': 33, 'KT-K2': 30, 'KT-K3': 30, 'KT-K4': 20, 'KT-K7': 6, 'KT-K12': 6, 'FR-F5': 10},
         'title': 'Decode -> encode -> decode returns the same map',
     },
     'C03': {
-        'families': [('kv', ['KV']), ('kt', ['KT-K1', 'KT-K2', 'KT-K3', 'KT-K7', 'KT-K11']), ('dg', ['DG-D1', 'DG-D2', 'DG-D3', 'DG-D6']),
+        'families': [('kv', ['KV']), ('kt', ['KT-K1', 'KT-K2', 'KT-K3', 'KT-K7', 'KT-K11', 'KT-K12']), ('dg', ['DG-D1', 'DG-D2', 'DG-D3', 'DG-D6']),
                      ('sc', ['SC-C11']), ('nf', ['NF'])],
-        'floors': {'KV': 15, 'KT-K1': 33, 'KT-K2': 30, 'KT-K7': 6, 'SC-C11': 32, 'NF': 15},
+        'floors': {'KV': 15, 'KT-K1': 33, 'KT-K2': 30, 'KT-K7': 6, 'KT-K12': 6, 'SC-C11': 33, 'NF': 15},
         'title': 'Edits to a decoded map survive encode -> decode',
     },
     'C04': {
-        'families': [('fr_enc', ['FR-F5']), ('fr', ['FR-F2']), ('kt', ['KT-K3', 'KT-K7', 'KT-K8', 'KT-K10'])],
-        'floors': {'FR-F5': 10, 'FR-F2': 13, 'KT-K3': 30, 'KT-K7': 6, 'KT-K8': 2, 'KT-K10': 6},
+        'families': [('fr_enc', ['FR-F5']), ('fr', ['FR-F2']), ('kt', ['KT-K3', 'KT-K4', 'KT-K7', 'KT-K8', 'KT-K10'])],
+        'floors': {'FR-F5': 10, 'FR-F2': 13, 'KT-K3': 30, 'KT-K4': 20, 'KT-K7': 6, 'KT-K8': 2, 'KT-K10': 6},
         'title': 'The encoder only emits text that its own decoder accepts (framing clause)',
     },
     'C05': {
@@ -202,7 +202,7 @@ PROPS = {
     },
     'C11': {
         'families': [('sc', ['SC-C11']), ('nf', ['NF']), ('kv', ['KV']), ('ea', ['EA'])],
-        'floors': {'SC-C11': 32, 'NF': 15, 'KV': 15, 'EA': 8},
+        'floors': {'SC-C11': 33, 'NF': 15, 'KV': 15, 'EA': 8},
         'title': 'Key/value, event and colour records decode per the format rules',
     },
     'C12': {
@@ -217,7 +217,7 @@ PROPS = {
     },
     'C14': {
         'families': [('sc', ['SC-C14']), ('ss14', ['SS-C14']), ('ab', ['AB'])],
-        'floors': {'SC-C14': 32, 'SS-C14': 8},
+        'floors': {'SC-C14': 38, 'SS-C14': 8},
         'title': 'Hit-object lines decode per the legacy grammar',
     },
     'C15': {
@@ -227,7 +227,7 @@ PROPS = {
     },
     'C19': {
         'families': [('sc', ['SC-C19']), ('sscurve', ['SS-C19'])],
-        'floors': {'SC-C19': 15, 'SS-C19': 10},
+        'floors': {'SC-C19': 22, 'SS-C19': 10},
         'title': 'Position along a curve is a faithful arc-length parametrisation',
     },
     'C20': {
